@@ -119,6 +119,25 @@ def direct_ranges(rng, out, thorough):
             except ValueError:
                 pass
             out.evaluations += 1
+    # a current point need not be an integer to be outside: less than one cell beyond either bound is outside all the same
+    for i_ in range(9):
+        lo, hi = rng.choice([(-3, 5), (0, 10), (1, 2)])
+        succ = rng.random() < 0.5
+        cls = ['BoundedDiscrete', 'SSAdaptiveBoundedDiscrete', 'AdaptiveBoundedDiscrete'][i_ % 3]
+        if cls == 'AdaptiveBoundedDiscrete':
+            prop = P.AdaptiveBoundedDiscrete(['a'], {'a': (lo, hi)}, adaptation_duration=20, successive={'a': succ})
+        else:
+            prop = getattr(P, cls)(['a'], {'a': (lo, hi)}, successive={'a': succ})
+        prop.bit_generator = numpy.random.PCG64(rng.randrange(1, 10 ** 6))
+        x = rng.choice([hi + 0.5, lo - 0.5, hi + 1e-9, lo - 0.999, hi + 0.999, lo - 1e-9])
+        try:
+            r = prop.jump({'a': x})
+            viol.append(dict(what='%s with bounds (%d, %d) jumped from %r outside its bounds to %r instead of refusing'
+                                  % (prop.name, lo, hi, x, r['a']), replay=dict(family=prop.name, bounds=(lo, hi), successive=succ, fromx=x)))
+        except ValueError:
+            pass
+        out.evaluations += 1
+        out.count('refusal_fractional_discrete')
     # ---- solid angle conventions
     for i_ in range(max(n, 32)):
         radec, degs = bool(i_ & 1), bool(i_ & 2)             # all four conventions take their turn
@@ -195,6 +214,50 @@ def direct_ranges(rng, out, thorough):
             if not (lo <= r[p] <= hi or numpy.isclose(r[p], lo) or numpy.isclose(r[p], hi)):
                 viol.append(dict(what='BoundedEigenvector proposed %s=%r outside [%r, %r] beyond the face tolerance' % (p, r[p], lo, hi),
                                  replay=dict(fromx=x, result={k: float(v) for k, v in r.items()})))
+    # ---- bounded eigenvector with intervals that are wide compared with the bound at a face (a face at 0, symmetric bounds): the
+    # tolerance at a face is a rounding tolerance for that bound, not a fraction of the interval's width.  Scripted jumps whose first
+    # displacement ends a little beyond the face (beyond the tolerance) and whose second stays inside; starts a little outside.
+    for i_ in range(n // 2):
+        bnd = {'a': (0.0, 1000.0), 'b': (-40.0, 40.0)}
+        th = rng.uniform(0.2, 1.2)
+        R = numpy.array([[math.cos(th), -math.sin(th)], [math.sin(th), math.cos(th)]])
+        prop = P.BoundedEigenvector(['a', 'b'], bnd, cov=R @ numpy.diag([1.0, rng.choice([0.25, 4.0])]) @ R.T)
+        prop.bit_generator = numpy.random.PCG64(rng.randrange(1, 10 ** 6))
+        face = rng.choice(['a0', 'b-', 'b+'])
+        coord, fv, beyond, outward = {'a0': (0, 0.0, 5e-3, -1.0), 'b-': (1, -40.0, 6e-4, -1.0), 'b+': (1, 40.0, 6e-4, 1.0)}[face]
+        x = {'a': rng.uniform(100, 900), 'b': rng.uniform(-30, 30)}
+        x['ab'[coord]] = fv
+        k = int(numpy.argmax(numpy.abs(prop.eigvects[coord, :])))
+        vc = float(prop.eigvects[coord, k])
+        dx_out = outward * beyond / vc
+        dx_in = -outward * 0.5 / vc
+        sc = dens.DirScript([k] * 12, [dx_out, dx_in] * 6)
+        try:
+            with GenTap(script=sc):
+                r = prop.jump(dict(x))
+        except Exception as e:      # noqa
+            viol.append(dict(what='BoundedEigenvector.jump(%s) raised %r' % (x, e), replay=dict(fromx=x, bounds=bnd)))
+            continue
+        out.evaluations += 1
+        out.count('range_bounded_eigenvector_wide')
+        for p in ('a', 'b'):
+            lo, hi = bnd[p]
+            if not (lo <= r[p] <= hi or numpy.isclose(r[p], lo) or numpy.isclose(r[p], hi)):
+                viol.append(dict(what='BoundedEigenvector with bounds %s proposed %s=%r from the face %s=%r: outside [%r, %r] beyond the rounding '
+                                      'tolerance at that face' % (bnd, p, float(r[p]), 'ab'[coord], fv, lo, hi),
+                                 replay=dict(fromx=x, bounds=bnd, direction=k, displacements=[dx_out, dx_in],
+                                             result={q: float(v) for q, v in r.items()})))
+        # a start beyond the tolerance is refused
+        xo = dict(x)
+        xo['ab'[coord]] = fv + outward * beyond
+        try:
+            with GenTap(script=dens.DirScript([k] * 12, [dx_in] * 12)):
+                r = prop.jump(dict(xo))
+            viol.append(dict(what='BoundedEigenvector with bounds %s jumped from %r, outside beyond the rounding tolerance at the face, instead '
+                                  'of refusing' % (bnd, xo), replay=dict(fromx=xo, bounds=bnd)))
+        except ValueError:
+            pass
+        out.evaluations += 1
     return viol
 
 
